@@ -295,6 +295,14 @@ func init() {
 			k(st, e.havocResults(st, fn.Signature, "closer"))
 		}
 	}
+	// wait groups: no concurrency semantics
+	for _, n := range []string{"(*polycry.pt/poly-go/sync.WaitGroup).Wait", "(*polycry.pt/poly-go/sync.WaitGroup).Add", "(*polycry.pt/poly-go/sync.WaitGroup).Done",
+		"(*polycry.pt/poly-go/sync.WaitGroup).WaitCtx", "(*sync.WaitGroup).Wait", "(*sync.WaitGroup).Add", "(*sync.WaitGroup).Done"} {
+		libSpecs[n] = func(e *Engine, st *State, fn *ssa.Function, args []Val, pos token.Pos, k Kont) {
+			e.Assumed["wait groups: no blocking semantics (sequential model)"] = true
+			k(st, e.havocResults(st, fn.Signature, "wg"))
+		}
+	}
 	// atomic flags: abstract (any outcome); they carry no verified state
 	for _, n := range []string{"(*polycry.pt/poly-go/sync/atomic.Bool).TrySet", "(*polycry.pt/poly-go/sync/atomic.Bool).IsSet", "(*polycry.pt/poly-go/sync/atomic.Bool).Set",
 		"(*polycry.pt/poly-go/sync/atomic.Bool).Unset", "(*polycry.pt/poly-go/sync/atomic.Bool).TryUnset"} {
